@@ -11,7 +11,7 @@ RULE = ("quick: every RGB colour on a 17^3 grid + all channel-edge combinations 
 ASSUMPTIONS = ["STANDARD_PALETTE / WINDOWS_PALETTE contents are data (the 16 target entries); the 8-bit "
                "palette is cross-checked against docs/source/appendix/colors.rst and the xterm definition",
                "the metric is Rich's weighted-RGB 'redmean' formula, re-coded independently"]
-REQUIRED = ["mon.constructor_route", "mon.downgrade", "mon.idempotent", "mon.argmin", "mon.ansi_codes", "mon.grey", "mon.palette_row"]
+REQUIRED = ["mon.rendered_conversion", "mon.constructor_route", "mon.downgrade", "mon.idempotent", "mon.argmin", "mon.ansi_codes", "mon.grey", "mon.palette_row"]
 MIN_NONTRIVIAL = {"quick": 5000, "thorough": 1000000}
 EXHAUSTIVE = {"quick": False, "thorough": True}
 
@@ -112,6 +112,23 @@ def check_color(ctx, color, api, pal, nontrivial_sig=None):
                 ctx.count("mon.grey")
                 if not (out.number in (16, 231) or 232 <= out.number <= 255):
                     ctx.violation("grey-off-ramp", wit)
+    # --- the conversion as rendering performs it: a Style with this colour rendered for each colour system writes
+    # the standard parameters of the converted colour (foreground then background)
+    from rich.style import Style
+    for system in (ColorSystem.STANDARD, ColorSystem.EIGHT_BIT, ColorSystem.TRUECOLOR, ColorSystem.WINDOWS):
+        if src_kind == "default":
+            break
+        down = color.downgrade(system)
+        k = _kind(ColorType, down.type)
+        want = (palette_ref.sgr_params(k, down.number, tuple(down.triplet) if down.triplet else None, True)
+                + palette_ref.sgr_params(k, down.number, tuple(down.triplet) if down.triplet else None, False))
+        out = Style(color=color, bgcolor=color).render("x", color_system=system)
+        ctx.count("mon.rendered_conversion")
+        got = tuple(out[2:out.index("m")].split(";")) if out.startswith("\x1b[") else ()
+        if got != tuple(str(x) for x in want):
+            ctx.violation("rendered-sgr-differs-from-converted-colour:%s" % system.name,
+                          {"color": repr(color), "system": system.name, "rendered": out, "want": want,
+                           "converted": repr(down)})
     # --- SGR parameters of the colour itself and of each conversion
     for fg in (True, False):
         for c in (color, color.downgrade(ColorSystem.STANDARD), color.downgrade(ColorSystem.EIGHT_BIT),
